@@ -516,7 +516,7 @@ func ruleProjection(w *core.World, r *core.Report) {
 		if !ok || len(ret.Results) != 2 {
 			continue
 		}
-		rej, isC := core.ConstBool(ret.Results[1])
+		rej, isC := core.ConstBool(core.RetVal(ret, 1))
 		if !isC {
 			bad, badPos = "reject flag is not constant at a return", ret.Pos()
 			continue
@@ -524,7 +524,7 @@ func ruleProjection(w *core.World, r *core.Report) {
 		if rej {
 			continue
 		}
-		if core.Unwrap(ret.Results[0]) == args {
+		if core.Unwrap(core.RetVal(ret, 0)) == args {
 			continue
 		}
 		proj++
